@@ -306,6 +306,10 @@ def step (s : DState) (line : String) : DState × String :=
       (s, if !(C01.ok v h c post) then "J C03 bad aggregates-differ-from-resting-orders-at-quiescence"
           else if bad.isEmpty then "J C03 ok" else "J C03 bad conservation:" ++ joinWith "," (bad.map showId))
     | _, _, _, _ => bad s line
+  | ["judge.C03a", tr] =>
+    match parseTrace tr with
+    | some evs => (s, if C03.amendScan [] evs then "J C03 ok" else "J C03 bad a-quantity-amendment-moved-the-hidden-aggregate")
+    | none => bad s line
   | ["judge.C08", tr] =>
     match parseTrace tr with
     | some evs => (s, if C08.scan (s.lastPre.map (fun o => showId o.id)) evs then "J C08 ok" else "J C08 bad hand-out-discipline")
